@@ -4,12 +4,15 @@ import (
 	"bytes"
 	"encoding/json"
 	"fmt"
+	"github.com/aml-org/amf-custom-validator/pkg/events"
 	"math/rand"
 	"os"
 	"os/exec"
 	"path/filepath"
 	"strings"
 	"sync"
+	"sync/atomic"
+	"time"
 
 	"github.com/aml-org/amf-custom-validator/pkg"
 	"github.com/aml-org/amf-custom-validator/pkg/config"
@@ -24,7 +27,15 @@ type c10job struct {
 	Config  int
 }
 
+func c10Multi(k int) string {
+	return c10Profiles2(k)
+}
+
 func c10Profiles() []string {
+	return []string{PoolProfileMin, PoolProfileLevels, c10Multi(4), c10Multi(7), PoolProfileSpecial}
+}
+
+func c10Profiles2(k int) string {
 	multi := func(k int) string {
 		var b strings.Builder
 		b.WriteString(ProfileHeader + "violation:\n")
@@ -37,13 +48,30 @@ func c10Profiles() []string {
 		}
 		return b.String()
 	}
-	return []string{PoolProfileMin, PoolProfileLevels, multi(4), multi(7), PoolProfileSpecial}
+	return multi(k)
 }
 
 func c10Datas() []string {
 	things := `{"@graph":[{"@id":"http://example.org/d#a","@type":"http://example.org/ns#Thing","http://example.org/ns#p0":"ok","http://example.org/ns#p1":"bad","http://example.org/ns#p2":"ok","http://example.org/ns#p3":"ok","http://example.org/ns#p5":"nope","http://example.org/ns#name":"a"},
  {"@id":"http://example.org/d#b","@type":"http://example.org/ns#Thing","http://example.org/ns#p0":"ok","http://example.org/ns#p1":"ok","http://example.org/ns#p2":"ok","http://example.org/ns#p3":"bad","http://example.org/ns#p4":"ok","http://example.org/ns#p6":"ok"}]}`
-	return []string{PoolDataGood, PoolDataBad, things, PoolDataEmpty, PoolDataGarbage}
+	// two large documents (> 64 KiB each) over the same node ids: one conforming, one with violations
+	large := func(bad bool) string {
+		var b strings.Builder
+		b.WriteString(`{"@graph":[`)
+		for i := 0; i < 300; i++ {
+			if i > 0 {
+				b.WriteString(",\n")
+			}
+			name := fmt.Sprintf(`,"http://example.org/ns#name":"thing number %d with a reasonably long name to make the document large"`, i)
+			if bad && i%60 == 7 {
+				name = ""
+			}
+			fmt.Fprintf(&b, `{"@id":"http://example.org/d#n%d","@type":"http://example.org/ns#Thing","http://example.org/ns#p0":"ok","http://example.org/ns#p1":"ok","http://example.org/ns#p2":"ok","http://example.org/ns#p3":"ok"%s}`, i, name)
+		}
+		b.WriteString("]}")
+		return b.String()
+	}
+	return []string{PoolDataGood, PoolDataBad, things, PoolDataEmpty, PoolDataGarbage, large(false), large(true)}
 }
 
 func c10Configs() []config.ReportConfiguration {
@@ -88,7 +116,11 @@ func C10Load(seed int64, rounds int) {
 	kinds := []string{"compile+validate", "validate-text", "validate-compiled"}
 	jobs := []c10job{}
 	for i := 0; i < rounds*8; i++ {
-		jobs = append(jobs, c10job{kinds[r.Intn(3)], r.Intn(len(profiles)), r.Intn(len(datas)), r.Intn(len(configs))})
+		di := r.Intn(5)
+		if r.Intn(10) == 0 {
+			di = 5 + r.Intn(2) // the large documents: mostly exercised by the aligned rounds below
+		}
+		jobs = append(jobs, c10job{kinds[r.Intn(3)], r.Intn(len(profiles)), di, r.Intn(len(configs))})
 	}
 	// what each call returns when it runs alone
 	alone := map[c10job]string{}
@@ -129,13 +161,118 @@ func C10Load(seed int64, rounds int) {
 		}(w)
 	}
 	wg.Wait()
+	// aligned rounds: the listener of every call holds its stage-start event until all 8 calls have reached the same
+	// stage, so the 8 calls enter that stage together (only the public event channel is used to steer them)
+	aligned := func(stage events.EventType, call func(w int, ch *chan events.Event) (string, error)) []string {
+		outs := make([]string, 8)
+		bar := make(chan struct{})
+		var arrived int32
+		var awg sync.WaitGroup
+		for w := 0; w < 8; w++ {
+			awg.Add(1)
+			go func(w int) {
+				defer awg.Done()
+				ch := make(chan events.Event)
+				fin := make(chan struct{})
+				go func() {
+					defer close(fin)
+					for ev := range ch {
+						if ev.EventType == stage {
+							if atomic.AddInt32(&arrived, 1) == 8 {
+								close(bar)
+							}
+							select {
+							case <-bar:
+							case <-time.After(10 * time.Second):
+							}
+						}
+					}
+				}()
+				o, err := func() (o string, err error) {
+					defer func() {
+						if r := recover(); r != nil {
+							err = fmt.Errorf("panic: %v", r)
+						}
+					}()
+					return call(w, &ch)
+				}()
+				if err != nil {
+					o = "error: " + err.Error()
+				}
+				outs[w] = o
+				select {
+				case <-fin:
+				case <-time.After(5 * time.Second):
+				}
+			}(w)
+		}
+		awg.Wait()
+		return outs
+	}
+	things := datas[2]
+	genProfiles := []string{}
+	for w := 0; w < 8; w++ {
+		genProfiles = append(genProfiles, c10Multi(3+w))
+	}
+	genAlone := make([]string, 8)
+	for w := range genProfiles {
+		o, err := pkg.ValidateWithConfiguration(genProfiles[w], things, false, nil, clockA, configs[0])
+		if err != nil {
+			o = "error: " + err.Error()
+		}
+		genAlone[w] = o
+	}
+	largeAlone := []string{}
+	for _, d := range datas[5:7] {
+		o, err := pkg.ValidateCompiledWithConfiguration(shared[0], d, false, nil, clockA, configs[0])
+		if err != nil {
+			o = "error: " + err.Error()
+		}
+		largeAlone = append(largeAlone, o)
+	}
+	for round := 0; round < rounds/2+2; round++ {
+		outs := aligned(events.RegoGenerationStart, func(w int, ch *chan events.Event) (string, error) {
+			return pkg.ValidateWithConfiguration(genProfiles[w], things, false, ch, clockA, configs[0])
+		})
+		for w, o := range outs {
+			if o != genAlone[w] && len(mism) < 8 {
+				mism = append(mism, mismatch{c10job{Kind: fmt.Sprintf("validate-text, 8 calls entering Rego generation together (profile: %d validations of the multi family)", 3+w), Profile: -1 - (3 + w), Data: 2}, genAlone[w], o})
+			}
+		}
+		outs = aligned(events.InputDataNormalizationStart, func(w int, ch *chan events.Event) (string, error) {
+			return pkg.ValidateCompiledWithConfiguration(shared[0], datas[5+(w+round)%2], false, ch, clockA, configs[0])
+		})
+		for w, o := range outs {
+			if o != largeAlone[(w+round)%2] && len(mism) < 8 {
+				mism = append(mism, mismatch{c10job{Kind: "validate-compiled, 8 calls entering normalisation together on two large documents", Profile: 0, Data: 5 + (w+round)%2}, largeAlone[(w+round)%2], o})
+			}
+		}
+		// and alone right afterwards (a wrong pairing left behind shows in the NEXT call)
+		for k, d := range datas[5:7] {
+			o, err := pkg.ValidateCompiledWithConfiguration(shared[0], d, false, nil, clockA, configs[0])
+			if err != nil {
+				o = "error: " + err.Error()
+			}
+			if o != largeAlone[k] && len(mism) < 8 {
+				mism = append(mism, mismatch{c10job{Kind: "validate-compiled alone, right after 8 calls entered normalisation together on two large documents", Profile: 0, Data: 5 + k}, largeAlone[k], o})
+			}
+		}
+	}
+	// afterwards, alone again: nothing the concurrent phase left behind may change what a call returns
+	for j, want := range alone {
+		if got := solo(j); got != want && len(mism) < 8 {
+			j2 := j
+			j2.Kind = j.Kind + " (alone again, after the concurrent phase)"
+			mism = append(mism, mismatch{j2, want, got})
+		}
+	}
 	out, _ := json.Marshal(map[string]any{"jobs": len(jobs), "distinct_jobs": len(alone), "mismatches": mism})
 	fmt.Println(string(out))
 }
 
 func C10(e *core.Env) {
 	res := e.Res
-	res.Rule = "cases = concurrent calls: 8 goroutines x rounds of jobs drawn from {CompileProfile+ValidateCompiled, ValidateWithConfiguration from text, ValidateCompiledWithConfiguration sharing ONE compiled profile} x 5 profiles (incl. profiles with 8 and 14 path rules) x 5 documents (incl. unreadable) x 3 report configurations with different schema IRIs, in a -race build of the harness; every returned report / error is compared byte-wise (fixed clock) with what the same call returns when it runs alone; any data race reported by the race detector is a violation; " +
+	res.Rule = "cases = concurrent calls: 8 goroutines x rounds of jobs drawn from {CompileProfile+ValidateCompiled, ValidateWithConfiguration from text, ValidateCompiledWithConfiguration sharing ONE compiled profile} x 5 profiles (incl. profiles with 8 and 14 path rules) x 7 documents (incl. unreadable, and two documents larger than 64 KiB over the same node ids, one conforming and one not) x 3 report configurations with different schema IRIs, in a -race build of the harness; every returned report / error is compared byte-wise (fixed clock) with what the same call returns when it runs alone, and every distinct call is repeated alone after the concurrent phase; aligned rounds: 8 calls whose listeners hold the stage-start event until all have reached it enter Rego generation together (8 different profiles) and enter normalisation together (two large documents), each compared with the call alone, followed by the same calls alone; any data race reported by the race detector is a violation; " +
 		"non-trivial = the job compiles a profile or uses a non-default configuration; distinct by (kind, profile, data, configuration)"
 	raceBin := filepath.Join(e.Scratch, "verifh-race")
 	cmd := exec.Command("go", "build", "-race", "-o", raceBin, "./cmd/verifh")
@@ -182,8 +319,14 @@ func C10(e *core.Env) {
 		}
 		profiles, datas, configs := c10Profiles(), c10Datas(), c10Configs()
 		for _, m := range result.Mismatches {
+			ptext := ""
+			if m.Job.Profile >= 0 {
+				ptext = profiles[m.Job.Profile]
+			} else {
+				ptext = c10Multi(-1 - m.Job.Profile)
+			}
 			res.Violate("impl-violates-property", "a concurrent "+m.Job.Kind+" call returns something else than the same call alone",
-				map[string]any{"job": m.Job, "profile": profiles[m.Job.Profile], "data": datas[m.Job.Data], "configuration": fmt.Sprintf("%+v", configs[m.Job.Config]),
+				map[string]any{"job": m.Job, "profile": ptext, "data": core.Trunc(datas[m.Job.Data], 3000), "configuration": fmt.Sprintf("%+v", configs[m.Job.Config]),
 					"alone": core.Trunc(m.Alone, 2500), "concurrent": core.Trunc(m.Got, 2500), "first_difference": firstDiff(m.Alone, m.Got), "seed": e.Seed + int64(run), "rounds": rounds})
 		}
 		res.Evaluations += result.JobsN
